@@ -43,24 +43,4 @@ MUTANTS = [
          old="                if new_set.len() > 1024 {", new="                if new_set.len() > usize::MAX / 2 {"),
     # ------------------------------------------------------------------ query path / sessions
     # ------------------------------------------------------------------ stable hash
-    dict(id="X40-write-str-without-length", file="crates/stable_hash/src/lib.rs",
-         old="        self.write_length_prefix(s.len());\n        self.write(s.as_bytes());", new="        self.write(s.as_bytes());"),
-    dict(id="X41-hashmap-key-and-value-hashed-separately", file="crates/stable_hash/src/lib.rs",
-         old="""            combined = combined.wrapping_add(state.sub_hash(&mut |sub| {
-                key.stable_hash(sub);
-                value.stable_hash(sub);
-            }));""", new="""            combined = combined.wrapping_add(state.sub_hash(&mut |sub| {
-                key.stable_hash(sub);
-            }));
-            combined = combined.wrapping_add(state.sub_hash(&mut |sub| {
-                value.stable_hash(sub);
-            }));"""),
-    dict(id="X42-cow-hashes-its-variant", file="crates/stable_hash/src/lib.rs",
-         old="impl<T: StableHash + Clone> StableHash for std::borrow::Cow<'_, T> {\n    fn stable_hash<H: StableHasher + ?Sized>(&self, state: &mut H) {\n",
-         new="impl<T: StableHash + Clone> StableHash for std::borrow::Cow<'_, T> {\n    fn stable_hash<H: StableHasher + ?Sized>(&self, state: &mut H) {\n        state.write_u8(u8::from(matches!(self, std::borrow::Cow::Owned(_))));\n"),
-    dict(id="X43-char-truncated-to-a-byte", file="crates/stable_hash/src/lib.rs",
-         old="        state.write_u32(*self as u32);", new="        state.write_u8(*self as u8);"),
-    dict(id="X44-hashset-len-not-hashed", file="crates/stable_hash/src/lib.rs",
-         old="        self.len().stable_hash(state);\n        let mut combined = H::Hash::default();\n\n        for value in self {",
-         new="        let mut combined = H::Hash::default();\n\n        for value in self {"),
 ]
